@@ -31,6 +31,8 @@ type LoopSpec struct {
 type CallAssert struct {
 	Callee string
 	N      int
+	HasN   bool
+	Except []string
 	C      Clause
 }
 
@@ -115,7 +117,7 @@ type PkgContracts struct {
 }
 
 var clauseKW = map[string]bool{"mode": true, "requires": true, "ensures": true, "assigns": true, "may-panic": true,
-	"loop": true, "ghost-update": true, "assert": true, "instantiate": true, "inline": true, "pure-call": true,
+	"loop": true, "ghost-update": true, "assert": true, "assert-all-calls": true, "instantiate": true, "inline": true, "pure-call": true,
 	"params": true, "assume": true, "wraps": true}
 var declKW = map[string]bool{"func": true, "iface": true, "trusted": true, "pure": true, "axiom": true, "lemma": true,
 	"ghost": true, "immutable": true, "property": true}
@@ -467,7 +469,29 @@ func parseClause(fc *FuncContract, kw, rest string, line int) error {
 		if err != nil {
 			return err
 		}
-		fc.CallAsserts = append(fc.CallAsserts, CallAssert{Callee: m[2], N: n, C: c})
+		fc.CallAsserts = append(fc.CallAsserts, CallAssert{Callee: m[2], N: n, HasN: m[4] != "", C: c})
+	case "assert-all-calls":
+		// assert-all-calls [except A, B]: expr   -- expr must hold before every call (except the listed callees)
+		r := strings.TrimSpace(rest)
+		i := strings.Index(r, ":")
+		if i < 0 {
+			return fmt.Errorf("assert-all-calls needs ': expr'")
+		}
+		head := strings.TrimSpace(r[:i])
+		ca := CallAssert{Callee: "*"}
+		if strings.HasPrefix(head, "except") {
+			for _, x := range strings.Split(strings.TrimSpace(strings.TrimPrefix(head, "except")), ",") {
+				if x = strings.TrimSpace(x); x != "" {
+					ca.Except = append(ca.Except, x)
+				}
+			}
+		}
+		c, err := mkClause(r[i+1:], line)
+		if err != nil {
+			return err
+		}
+		ca.C = c
+		fc.CallAsserts = append(fc.CallAsserts, ca)
 	case "ghost-update":
 		r := strings.TrimSpace(rest)
 		gu := GhostUpdate{Src: r}
